@@ -5,6 +5,7 @@
   specialised to native rows (`segment`).
 -/
 import PdtModel.Model.Segment
+import PdtModel.Model.Blocks
 import PdtModel.Lemmas.Marker
 import PdtModel.Gen.Consts
 set_option linter.unusedSimpArgs false
@@ -735,5 +736,79 @@ example :
         (fun b => (b.ty, b.rows.length, b.first))
       = [(.metadata, 1, 0), (.table, 2, 1), (.blank, 2, 3), (.blank, 1, 5), (.directive, 2, 6),
          (.template, 1, 9)] := by decide
+
+/-! ## 4. From the splitter to what the caller receives (`block_output`, blocks.py:465-484)
+
+   "none lost" at the level of delivered blocks: `block_output` hands every block of the segmentation to its
+   handler and delivers whatever the handler returns — an empty `MetadataBlock` (top-of-sheet `key:` rows without a
+   value cell) is a block like any other; only a handler result of `None` (a rejecting read filter) drops one.
+   For the output form whose handlers cannot fail (`to="cellgrid"`: tables are delivered as their raw rows) this
+   holds for every input whatsoever. -/
+
+open Blocks Reader in
+/-- a DIRECTIVE block of the segmentation starts with a text cell, so `make_directive` cannot fail on it -/
+theorem directive_ok (rows : List Row) (b : Block Row) (hb : b ∈ segment rows) (hty : b.ty = .directive) :
+    ∃ v, Blocks.directive b.rows = .ok v := by
+  obtain ⟨r, rest, hr, _, hd, _⟩ := segment_type_of_first_row rows b hb
+  have hk : rowKind r = .dir := hd.1 hty
+  rw [hr]
+  cases r with
+  | nil => simp [rowKind] at hk
+  | cons c cs =>
+    cases c with
+    | str s => exact ⟨_, rfl⟩
+    | none => simp [rowKind, Cell.isBlank] at hk
+    | int _ _ => simp [rowKind, Cell.isBlank] at hk
+    | float _ => simp [rowKind, Cell.isBlank] at hk
+    | bool _ => simp [rowKind, Cell.isBlank] at hk
+    | dt _ => simp [rowKind, Cell.isBlank] at hk
+    | other _ => simp [rowKind, Cell.isBlank] at hk
+
+open Blocks Reader in
+theorem runBlocks_cellgrid (cfg : Blocks.Config) (hform : cfg.form = .cellgrid) (hfil : cfg.filter = none)
+    (bs : List (Block Row)) (hdir : ∀ b ∈ bs, b.ty = .directive → ∃ v, Blocks.directive b.rows = .ok v)
+    (f : Fixer) :
+    (∃ g, (runBlocks cfg bs f).ending = .exhausted ∧ (runBlocks cfg bs f).fixer = g) ∧
+    (runBlocks cfg bs f).issues = [] ∧
+    (runBlocks cfg bs f).blocks.map (fun d => (d.ty, d.first)) = bs.map (fun b => (b.ty, b.first)) := by
+  induction bs generalizing f with
+  | nil => simp [runBlocks]
+  | cons b bs ih =>
+    have hacc : accepts cfg b.ty b.rows = true := by simp [accepts, hfil]
+    have ih' := fun g => ih (fun x hx => hdir x (List.mem_cons_of_mem _ hx)) g
+    have hok : ∃ v f', handle cfg b.ty b.rows f.reset = .ok (v, f') := by
+      cases hty : b.ty with
+      | metadata => exact ⟨.metadata (metadataBlock b.rows), f.reset, by simp [handle]⟩
+      | directive =>
+        obtain ⟨v, hv⟩ := hdir b (List.mem_cons_self ..) hty
+        exact ⟨.directive v.1 v.2, f.reset, by simp [handle, hv, bind, Except.bind, pure, Except.pure]⟩
+      | table => exact ⟨.grid b.rows, f.reset, by simp [handle, hform]⟩
+      | template => exact ⟨.grid b.rows, f.reset, by simp [handle]⟩
+      | blank => exact ⟨.grid b.rows, f.reset, by simp [handle]⟩
+    obtain ⟨v, f', hh⟩ := hok
+    obtain ⟨⟨g, he, hg⟩, hi, hbk⟩ := ih' f'
+    simp only [runBlocks, hacc, Bool.not_true, Bool.false_eq_true, if_false, hh]
+    exact ⟨⟨g, he, hg⟩, hi, by simp [hbk]⟩
+
+open Blocks Reader in
+/-- **every block of the segmentation is delivered** (`to="cellgrid"`, no filter): for every row sequence the read
+    runs to the end, reports no issue, and delivers exactly one block per block of the splitter — same types, same
+    origin rows, in order.  Together with `segment_no_loss` no non-blank row of the input is missing from what the
+    caller receives. -/
+theorem cellgrid_delivers_every_block (cfg : Blocks.Config) (hform : cfg.form = .cellgrid)
+    (hfil : cfg.filter = none) (rows : List Row) (f : Fixer) :
+    (parseBlocks cfg rows f).ending = .exhausted ∧ (parseBlocks cfg rows f).issues = [] ∧
+    (parseBlocks cfg rows f).blocks.map (fun d => (d.ty, d.first)) =
+      (segment rows).map (fun b => (b.ty, b.first)) := by
+  obtain ⟨⟨_, he, _⟩, hi, hb⟩ :=
+    runBlocks_cellgrid cfg hform hfil (segment rows) (fun b hb hty => directive_ok rows b hb hty) f
+  exact ⟨he, hi, hb⟩
+
+open Blocks Reader in
+/-- an empty METADATA block (top `key:` rows without a value cell) is delivered like any other -/
+example :
+    let cfg : Blocks.Config := ⟨.cellgrid, none, .raising, ⟨fun _ => none, fun _ => .valueError, fun _ => false⟩⟩
+    ((parseBlocks cfg [[.str "author:".toList], [.str "**t".toList], [.str "all".toList]] ⟨FixCfg.strict, 0, 0, []⟩).blocks.map
+      (fun d => (d.ty, d.first))) = [(.metadata, 0), (.table, 1)] := by decide
 
 end Pdt.C03
